@@ -6,6 +6,7 @@
 // Serves C07: every span reported by the token cursor lies within the literal, and the
 // semantic tokens are non-overlapping and in increasing order.
 use vstd::prelude::*;
+use vstd::string::*;
 verus! {
 
 pub assume_specification<T>[core::mem::replace::<T>](dest: &mut T, src: T) -> (r: T)
@@ -39,7 +40,7 @@ impl<'source> Lexer<'source> {
     pub uninterp spec fn source_len(&self) -> nat;
     #[verifier::external_body]
     pub fn new(source: &'source str) -> (r: Self)
-        ensures r.span_start() == 0, r.span_end() == 0, r.source_len() == source@.len()  // see str_len
+        ensures r.span_start() == 0, r.span_end() == 0, r.source_len() == byte_len(source)
     { unimplemented!() }
     #[verifier::external_body]
     pub fn next(&mut self) -> (r: Option<IsographLangTokenKind>)
@@ -54,9 +55,11 @@ impl<'source> Lexer<'source> {
 }
 /// byte length of a str (Verus views str as chars; the lexer's offsets are byte offsets, so
 /// the byte length is kept abstract and tied to the lexer's source_len)
-pub uninterp spec fn byte_len(s: &str) -> nat;
-#[verifier::external_body]
-pub fn str_len(s: &str) -> (r: usize) ensures r == byte_len(s) { unimplemented!() }
+pub open spec fn byte_len(s: &str) -> nat { s.spec_bytes().len() }
+/// std: the trimming functions return a sub-slice of their argument (only the length is used)
+pub assume_specification<'a>[str::trim_end](s: &'a str) -> (r: &'a str) ensures byte_len(r) <= byte_len(s);
+pub assume_specification<'a>[str::trim_start](s: &'a str) -> (r: &'a str) ensures byte_len(r) <= byte_len(s);
+pub assume_specification<'a>[str::trim](s: &'a str) -> (r: &'a str) ensures byte_len(r) <= byte_len(s);
 #[verifier::external_body]
 pub fn lexer_for<'a>(source: &'a str) -> (r: Lexer<'a>)
     ensures r.span_start() == 0, r.span_end() == 0, r.source_len() == byte_len(source)
@@ -218,12 +221,11 @@ impl<'source> PeekableLexer<'source> {
 
 //@fn rel=crates/isograph_lang_parser/src/peekable_lexer.rs name=remaining_token_span within="impl<'source> PeekableLexer<'source>" vis=pub ret=r serves=C07
 //@rw R4
-//@sub "self\.source\.len\(\)" => "str_len(self.source)" n=1
 //@contract
         requires old(self).inv(),
         ensures
             final(self).inv(), //@O C07.O-1_remaining_token_span_preserves_cursor_invariant
-            r is Some ==> r->Some_0.start <= r->Some_0.end && r->Some_0.end == byte_len(old(self).source), //@O C07.O-2_remaining_span_inside_literal
+            r is Some ==> r->Some_0.start <= r->Some_0.end && r->Some_0.end <= byte_len(old(self).source), //@O C07.O-2_remaining_span_inside_literal
             // it is the rest of the literal from the token that was current, and that token is consumed
             (r is Some) == (old(self).current.item != IsographLangTokenKind::EndOfFile), //@O C07.O-2_remaining_span_none_iff_eof
             r is Some ==> r->Some_0.start == old(self).current.span.start, //@O C07.O-2_remaining_span_starts_at_current_token
